@@ -62,6 +62,9 @@ class Seams:
         t = self.time_manager.time
         vals[1, sides.north] = -0.005 * self._sim.bc_rate * t
         vals[0, sides.north] = 0.0025 * self._sim.bc_rate * t
+        if self._sim.family == "damage":
+            # shear reversals make the damage history evolve
+            vals[0, sides.north] = 0.01 * self._sim.bc_rate * np.sin(3.0 * t)
         return vals.ravel("F")
 
     # --- seams ----------------------------------------------------------------------
@@ -85,11 +88,29 @@ class Seams:
         self._sim.on_save(self, super().save_data_time_step)
 
 
+def _damage_base():
+    """Momentum balance with the shipped fracture-damage mixins (porepy.models.fracture_damage): the one model family
+    that overrides ``update_solution`` - contact traction and interface displacement keep their *whole* time-step
+    history (shift with max_index=None), all other variables the usual window."""
+    from porepy.models import fracture_damage as damage
+
+    class DamageMomentumBalance(damage.IsotropicHistoryEquation, pp.constitutive_laws.FrictionDamage, pp.constitutive_laws.DilationDamage,
+                                damage.DamageHistoryVariable, damage.DamageHistoryEquation, pp.MomentumBalance):
+        pass
+
+    return DamageMomentumBalance
+
+
+# solid parameters of the shipped fracture-damage example (porepy.examples.fracture_damage.solid_params)
+DAMAGE_SOLID = {"friction_damage_decay": 0.5, "dilation_damage_decay": 0.5, "friction_coefficient": 0.1, "dilation_angle": 0.1, "shear_modulus": 1.0e6,
+                "fracture_normal_stiffness": 1.0e-3, "fracture_tangential_stiffness": 1.0e3, "maximum_elastic_fracture_opening": 0.2}
+
 FAMILIES = {
     "flow": lambda: pp.SinglePhaseFlow,
     "energy": lambda: pp.MassAndEnergyBalance,
     "mech": lambda: pp.MomentumBalance,
     "poro": lambda: pp.Poromechanics,
+    "damage": _damage_base,
 }
 # admissible (fracture set, cell size) pairs per family, found by probing: configurations for which the unfaulted model
 # solves (mechanics with the through-going fracture at x = 0.5 and two cells per direction is singular)
@@ -97,6 +118,7 @@ FAMILY_GEOMETRY = {
     "energy": [([0], 0.5), ([], 0.5), ([1], 0.5), ([0, 1], 0.5), ([], 1.0)],
     "mech": [([1], 0.5), ([0], 0.25), ([1], 0.25)],  # without fractures the momentum balance is a *linear* problem: a failed solve raises by design
     "poro": [([1], 0.5), ([], 0.5), ([1], 0.25)],
+    "damage": [([1], 0.5), ([1], 0.25)],
 }
 _CLASSES: dict = {}
 
@@ -170,7 +192,7 @@ class DriverSim:
             lo = dt_init / ch.choice([4, 2, 8, 3])
             hi = dt_init * ch.choice([2, 1, 4])
             self.max_iter = ch.rng(5, 10)
-            if self.family in ("mech", "poro"):
+            if self.family in ("mech", "poro", "damage"):
                 self.max_iter += 6  # contact mechanics needs 6-13 iterations per step without any fault
             iter_max = self.max_iter + ch.rng(0, 2)
             hi_opt = ch.rng(1, iter_max)
@@ -181,6 +203,9 @@ class DriverSim:
                 recomp_max=ch.rng(1, 4),
             )
             self.div_tol = ch.choice([np.inf, 1e6])
+            # residual-based convergence criterion on/off: the Newton step assembles the residual after the update only
+            # if one of the two residual tolerances is finite (another code path through the loop)
+            self.res_tol = ch.choice([np.inf, np.inf, 1e-6])
             # environment (swarm): enabled fault kinds, rate, horizon, aiming
             kinds = ["diverge", "stall", "nan", "blowup"]
             self.kinds = [k for k in kinds if ch.flag(2, 3)] or [ch.choice(kinds)]
@@ -189,7 +214,7 @@ class DriverSim:
             self.aim = ch.flag()
         self.tr.emit("config", {"family": self.family, "cell": self.cell_size, "fracs": self.fracs, "ts_depth": self.ts_depth, "it_depth": self.it_depth,
                                 "tm": {k: (list(v) if isinstance(v, (list, tuple)) else v) for k, v in self.tm_kw.items()},
-                                "max_iter": self.max_iter, "div_tol": float(self.div_tol), "kinds": self.kinds, "p_fail": self.p_fail,
+                                "max_iter": self.max_iter, "div_tol": float(self.div_tol), "res_tol": float(self.res_tol), "kinds": self.kinds, "p_fail": self.p_fail,
                                 "horizon": self.horizon, "export": self.export})
 
     def build(self, folder="viz", restart_options=None, tm=None):
@@ -201,11 +226,16 @@ class DriverSim:
         params = {
             "fracture_indices": self.fracs, "grid_type": "cartesian", "meshing_arguments": {"cell_size": self.cell_size},
             "time_manager": self.tm, "material_constants": {"fluid": fluid}, "max_iterations": self.max_iter,
-            "nl_convergence_tol": 1e-8, "nl_divergence_tol": self.div_tol, "linear_solver": "scipy_sparse",
+            "nl_convergence_tol": 1e-8, "nl_convergence_tol_res": self.res_tol, "nl_divergence_tol": self.div_tol, "linear_solver": "scipy_sparse",
             "nonlinear_solver": ObservingNewton, "folder_name": folder, "file_name": "data",
         }
         if restart_options is not None:
             params["restart_options"] = restart_options
+        params.update(getattr(self, "extra_params", {}))
+        if self.family == "damage":
+            from porepy.compositional.materials import FractureDamageSolidConstants
+
+            params["material_constants"] = {"solid": FractureDamageSolidConstants(**DAMAGE_SOLID)}
         model = model_class(self.family)(params)
         model._sim = self
         self.params = params
@@ -397,6 +427,16 @@ class DriverSim:
                     self._v("C08" if self.owner == "C08" else "C10", "driver_window_depth", f"{where}: time_step_index={i} is not the {i}-th most recent accepted solution (depth {self.ts_depth}, accepted times {[a[0] for a in self.accepted[-4:]]})")
             if self.ts_depth == 3 and len(self.accepted) >= 3:
                 self.tr.probe("depth3_window_filled")
+            # variables a model keeps at *all* time steps (fracture damage): every accepted solution stays readable
+            if hasattr(model, "variables_stored_all_time_steps"):
+                hv = model.variables_stored_all_time_steps()
+                dofs = np.sort(es.dofs_of(hv))
+                for i in range(1, len(self.accepted)):
+                    got = es.get_variable_values(variables=hv, time_step_index=i)
+                    if not np.array_equal(got, self.accepted[-1 - i][1][dofs]):
+                        self._v("C08" if self.owner == "C08" else "C10", "driver_window_depth", f"{where}: full-history variables at time_step_index={i} are not the {i}-th most recent accepted solution ({len(self.accepted) - 1} accepted steps)", "full_history_variables")
+                if len(self.accepted) >= 4:
+                    self.tr.probe("full_history_ge_3_steps")
 
         self.guard("C10", idx0)
         # The deeper entries are stated by both C10 ("time-step history equal to the sequence of accepted solutions")
@@ -420,7 +460,7 @@ class DriverSim:
 # --------------------------------------------------------------------------------------
 PROBES = ["fault_at_newton_iteration_1", "failure_right_after_failure", "failure_on_schedule_landing_step", "failure_on_first_step",
           "failure_on_final_step", "depth3_window_filled", "budget_exhausted_raise", "fail_at_dt_min_raise", "real_divergence_or_nonconvergence",
-          "step_back_S5", "run_reached_final_time", "attempt_cap_reached", "config_rejected"]
+          "step_back_S5", "run_reached_final_time", "attempt_cap_reached", "config_rejected", "full_history_ge_3_steps"]
 
 
 def make_run(owner: str, families=("flow",)):
@@ -462,6 +502,7 @@ def run_model_loop(sim: DriverSim, model) -> None:
             if sim.owner == "C10":
                 raise Violation("failure_handling_completes", f"the driver raised {e!r} outside the documented failure path")
             tr.foreign["C10:failure_handling_completes"] += 1
+            tr.emit("foreign-exception", repr(e)[:200])
         tr.sim_time += sim.accepted[-1][0] - sim.accepted[0][0]
         tr.emit("end-raised", sim.accepted[-1][0], len(sim.accepted) - 1)
         return
@@ -469,6 +510,7 @@ def run_model_loop(sim: DriverSim, model) -> None:
         if sim.owner == "C10":
             raise Violation("failure_handling_completes", f"the driver crashed with {e!r} under injected solver faults (attempt {sim.attempt})", "driver_crashed")
         tr.foreign["C10:failure_handling_completes"] += 1
+        tr.emit("foreign-exception", repr(e)[:200])
         return
     # normal end
     tm = model.time_manager
